@@ -230,7 +230,7 @@ theorem processElement_sim (txt : Bytes) (L' : Nat) (c : Ctx) (e : EndKind) (r :
     have l1 := (resolveNamespaces_sizeOk _ _ _ h1).1
     wl_norm
     refine SimR.bind (SimR.of_eq (resolveAttributes_wl txt L'
-      { c1 with nsStartIdx := c1.doc.ns.treeOrder.size } nss)) (fun ⟨c2, attrs⟩ h2 => ?_)
+      { c1 with nsStartIdx := c1.doc.ns.treeOrder.size, xmlDeclared := false } nss)) (fun ⟨c2, attrs⟩ h2 => ?_)
     have l2 := (resolveAttributes_sizeOk _ _ _ _ _ h2).1
     have hL2 : c2.nodesLimit ≤ L' := by rw [l2]; dsimp only; rw [l1]; exact hL
     wl_norm
